@@ -142,6 +142,7 @@ fn exhaustive_general(prop: &str, thorough: bool) -> Vec<Scenario> {
 					Faults { spawn: vec![0], ..Default::default() },
 					Faults { spawn: vec![1], ..Default::default() },
 					Faults { kill: vec![0], ..Default::default() },
+					Faults { kill: vec![0], esrch: true, ..Default::default() },
 					Faults { signal: vec![0], ..Default::default() },
 					Faults { spawn: vec![1], signal: vec![0], ..Default::default() },
 				];
@@ -403,6 +404,12 @@ pub fn random(prop: &str, rng: &mut Rng, thorough: bool) -> Scenario {
 	if !burst.is_empty() {
 		steps.push(Step::Burst(burst));
 	}
+	// one scenario in ten starts by unsetting the spawn hook and setting another one, with an error handler installed
+	// before: unsetting the hook touches nothing else (a spawn failure later must still reach that handler)
+	let unset_prefix = rng.chance(1, 10);
+	if unset_prefix {
+		steps.insert(0, Step::Burst(vec![Op::SetErrH(7), Op::UnsetHook, Op::SetHook(3)]));
+	}
 	if rng.chance(1, 8) {
 		steps.push(Step::DropJob);
 	}
@@ -415,7 +422,10 @@ pub fn random(prop: &str, rng: &mut Rng, thorough: bool) -> Scenario {
 		})
 		.collect();
 	let mut faults = Faults::default();
-	if rng.chance(1, 3) {
+	faults.esrch = rng.chance(1, 2);
+	if unset_prefix {
+		faults.spawn.push(rng.usize(2));
+	} else if rng.chance(1, 3) {
 		match rng.below(if prop == "C04" { 4 } else { 3 }) {
 			0 => faults.spawn.push(rng.usize(4)),
 			1 => faults.kill.push(rng.usize(3)),
